@@ -35,7 +35,10 @@ func init() {
 		ID: "C17", Level: "exploration",
 		Rule:        "long sequential histories with 1-3 roots and a directory limit of 100, 128, 150 or 260 (and 0, 1, 99 to exercise the clamp to 100): several hundred live keys so that directories fill up and rotate, delete waves followed by collector passes and drains so that rotated-out directories regain room, reopens; after EVERY step the tree below the roots is walked: every regular file lies exactly at root/<uuid>/<file>, every entry directly below a root is a UUID-named directory, no directory holds more than max(limit,100) entries, every root offers a directory to write to (the candidates the directory repository returns); a directory that regained room must be among the candidates and receive a file within 30 x candidates later writes; with two or more roots a final phase reopens the database with its last root taken out of the configuration, deletes, collects and writes again: everything stays readable and no new file may appear below the removed root. evaluations = steps after which the tree was checked; distinct_nontrivial = distinct (configuration, event) pairs among {rotation, re-activation of a directory, reuse of a re-activated directory, reopen scan}",
 		Assumptions: []string{"the harness puts nothing else below the roots"},
-		Roles:       map[string]Role{"main": {N: func(t string) int { return tierN(t, 8, 128) }, Case: c17Case}},
+		Roles: map[string]Role{
+			"main":   {N: func(t string) int { return tierN(t, 8, 128) }, Case: c17Case},
+			"regain": {N: func(t string) int { return tierN(t, 6, 96) }, Case: c17Regain},
+		},
 	})
 }
 
@@ -692,5 +695,185 @@ func c14BigBatch(tier string, seed int64, idx int, scratch string) rt.CaseResult
 		c.AddDistinct(fmt.Sprintf("bigbatch/%s/%d", end, n))
 	}
 	c.Sample = map[string]any{"scenario": "more than 1000 unreachable contents in one batch", "writes": n, "end": end}
+	return c
+}
+
+// c17Regain: the same directories go through "full, taken out of use, lose files, offered again,
+// full again ..." several times within one life of the process (and once more after a reopen).
+// After every collector pass + drain each directory that has room must be among the directories
+// offered for writing with free space, and it must fill up again.
+func c17Regain(tier string, seed int64, idx int, scratch string) rt.CaseResult {
+	var c rt.CaseResult
+	rng := seqrun.Rng(seed, "C17r", idx)
+	nroots := 1 + idx%2
+	const eff = 100
+	env, err := dbx.Open(dbx.Options{Mode: dbx.Inline, Dir: filepath.Join(scratch, "db"), Roots: nroots, MaxDirCount: eff, MaxDirExplicit: true})
+	if err != nil {
+		c.Violate("open-failed", err.Error(), nil)
+		return c
+	}
+	r := seqrun.NewRunner(env, seqrun.Options{})
+	defer func() { r.Env.Close() }()
+	cfgName := fmt.Sprintf("regain/roots=%d", nroots)
+	replay := map[string]any{"seed": seed, "case": idx, "config": cfgName}
+	nk, step := 0, 0
+	dirOf := map[string]string{} // key -> directory of its content file (learned from the walks)
+	var live []string
+	do := func(s seqrun.Step) bool {
+		step++
+		if step%50 == 0 {
+			rt.Beat()
+		}
+		if m := r.Do(step, s); m != nil {
+			replay["step"] = s.String()
+			c.Violate(m.Sig, m.Error(), replay)
+			return false
+		}
+		c.Evals++
+		return true
+	}
+	add := func(n int) bool {
+		for i := 0; i < n; i++ {
+			k := fmt.Sprintf("rk%05d", nk)
+			nk++
+			live = append(live, k)
+			if !do(seqrun.Step{Op: "set", Actor: -1, Key: k, Tag: fmt.Sprintf("r%d-%s", idx, k), Len: 5}) {
+				return false
+			}
+		}
+		return true
+	}
+	counts := func() (map[string]int, bool) {
+		files, dirs, err := r.Env.Walk(false)
+		if err != nil {
+			c.Inconclusive = append(c.Inconclusive, "walk: "+err.Error())
+			return nil, false
+		}
+		for _, f := range files {
+			parts := strings.Split(f.Rel, "/")
+			if len(parts) != 2 || !uuidRe.MatchString(parts[0]) {
+				c.Violate("content-file-misplaced", fmt.Sprintf("content file %s/%s is not directly inside a UUID-named directory directly inside a root", f.Root, f.Rel), replay)
+				return nil, false
+			}
+		}
+		out := map[string]int{}
+		for d, ents := range dirs {
+			isRoot := false
+			for _, rt0 := range r.Env.Cfg.Storage.RootDirs {
+				isRoot = isRoot || filepath.Clean(rt0) == d
+			}
+			if isRoot {
+				continue
+			}
+			out[d] = len(ents)
+			if len(ents) > eff {
+				c.Violate("directory-over-limit", fmt.Sprintf("directory %s holds %d entries, limit %d", d, len(ents), eff), replay)
+				return nil, false
+			}
+		}
+		return out, true
+	}
+	cycles := tierN(tier, 3, 5)
+	lastRegained := map[string]int{}
+	for cycle := 0; cycle < cycles; cycle++ {
+		// fill: write until every existing directory is full and a fresh one has been started
+		for round := 0; round < 40; round++ {
+			if !add(25) {
+				return c
+			}
+			cnt, ok := counts()
+			if !ok {
+				return c
+			}
+			full, open := 0, 0
+			for _, n := range cnt {
+				if n >= eff {
+					full++
+				} else {
+					open++
+				}
+			}
+			if full >= 2*nroots && open <= nroots && round >= 2 {
+				break
+			}
+		}
+		if cnt, ok := counts(); !ok {
+			return c
+		} else {
+			for d, n := range lastRegained {
+				if cnt[d] <= n {
+					c.Violate("regained-directory-never-used", fmt.Sprintf("cycle %d: directory %s regained room (%d of %d entries) and received no file although writing went on until %d more keys were stored", cycle, d, n, eff, nk), replay)
+					return c
+				}
+				c.Count("regained_directories_reused", 1)
+			}
+		}
+		lastRegained = map[string]int{}
+		// which key lives where: content files carry no key, so delete by sampling keys and
+		// looking at which directories lost files
+		before, ok := counts()
+		if !ok {
+			return c
+		}
+		rng.Shuffle(len(live), func(i, j int) { live[i], live[j] = live[j], live[i] })
+		ndel := 12 + rng.Intn(20)
+		for i := 0; i < ndel && len(live) > 0; i++ {
+			if !do(seqrun.Step{Op: "delete", Actor: -1, Key: live[0]}) {
+				return c
+			}
+			live = live[1:]
+		}
+		if !do(seqrun.Step{Op: "collect", Actor: -1}) || !do(seqrun.Step{Op: "drain", Actor: -1}) {
+			return c
+		}
+		if cycle == cycles-1 {
+			// the last regain is checked after a reopen as well
+			if !do(seqrun.Step{Op: "reopen", Actor: -1}) {
+				return c
+			}
+		}
+		after, ok := counts()
+		if !ok {
+			return c
+		}
+		cands, err := verif.DirCandidates(ctxBg, r.Env.C)
+		if err != nil {
+			c.Violate("dir-candidates-error", err.Error(), replay)
+			return c
+		}
+		cset := map[string]uint64{}
+		for _, d := range cands {
+			cset[d.Path()] = d.Free + 1
+		}
+		regained := 0
+		for d, n := range after {
+			if before[d] >= eff && n < eff && n > 0 {
+				regained++
+				lastRegained[d] = n
+				replay["cycle"] = cycle
+				if cset[d] == 0 {
+					c.Violate("regained-directory-not-offered", fmt.Sprintf("cycle %d: directory %s was full, lost files through deletions and a collector pass (%d of %d entries now) but is not among the directories offered for writing", cycle, d, n, eff), replay)
+					return c
+				}
+				if cset[d] == 1 {
+					c.Violate("regained-directory-offered-without-free-space", fmt.Sprintf("cycle %d: directory %s (%d of %d entries) is offered for writing with 0 bytes of free space", cycle, d, n, eff), replay)
+					return c
+				}
+			}
+		}
+		c.Count("regained_directories", int64(regained))
+		if regained > 0 {
+			c.AddDistinct(fmt.Sprintf("%s/cycle=%d", cfgName, cycle))
+		}
+		_ = dirOf
+	}
+	// everything written is still readable
+	if m := r.ProbeAll(step, seqrun.Step{Op: "getkeys", Actor: -1}); m != nil {
+		c.Violate(m.Sig, m.Error(), replay)
+		return c
+	}
+	if idx == 0 {
+		c.Sample = map[string]any{"config": cfgName, "cycles": cycles, "keys_written": nk}
+	}
 	return c
 }
